@@ -39,7 +39,12 @@ def main():
         open(dst, "w").write(open(demo).read())
         rc, out = sh(["cargo", "test", "--offline", "--test", tname, "--", "--include-ignored"], wt)
         res["demo_without_patch"] = "pass" if rc == 0 else "FAIL"
-        rc, out = sh(["git", "apply", "--3way", patch], wt)
+        rc, out = sh(["git", "apply", patch], wt)
+        if rc != 0:
+            sh(["git", "reset", "--hard"], wt)
+            rc, out = sh(["git", "apply", "--3way", patch], wt)
+            if rc != 0:
+                sh(["git", "reset", "--hard"], wt)
         if rc != 0:
             res["apply"] = "FAIL: " + out[-200:]
             json.dump(res, open(os.path.join(sd, "confirm.json"), "w"), indent=1)
